@@ -322,37 +322,14 @@ func refDecodeElem(e *vXElem, o vDecOpts) (key string, val interface{}, outside 
 	return key, m, outside
 }
 
-// vDeepEq: structural equality of decoded values (maps, lists, scalars).
-func vDeepEq(a, b interface{}) bool {
-	switch av := a.(type) {
-	case map[string]interface{}:
-		bv, ok := b.(map[string]interface{})
-		if !ok || len(av) != len(bv) {
-			return false
+func init() {
+	vUnwrap = func(v interface{}) interface{} {
+		switch c := v.(type) {
+		case Map:
+			return map[string]interface{}(c)
+		case MapSeq:
+			return map[string]interface{}(c)
 		}
-		for k, x := range av {
-			y, has := bv[k]
-			if !has || !vDeepEq(x, y) {
-				return false
-			}
-		}
-		return true
-	case Map:
-		return vDeepEq(map[string]interface{}(av), b)
-	case []interface{}:
-		bv, ok := b.([]interface{})
-		if !ok || len(av) != len(bv) {
-			return false
-		}
-		for i := range av {
-			if !vDeepEq(av[i], bv[i]) {
-				return false
-			}
-		}
-		return true
+		return v
 	}
-	if bm, ok := b.(Map); ok {
-		return vDeepEq(a, map[string]interface{}(bm))
-	}
-	return vSame(a, b)
 }
